@@ -105,7 +105,7 @@ typedef void (*sad_loop_fn)(uint8_t *src, uint32_t src_stride, uint8_t *ref, uin
                             uint64_t *best_sad, int16_t *x_search_center, int16_t *y_search_center, uint32_t src_stride_raw, int16_t search_area_width,
                             int16_t search_area_height);
 #define SL_SRC (64 * 128 + 1024)
-#define SL_REF ((64 + 48 + 16 + 64) * (128 + 8) + 2048)
+#define SL_REF ((64 + 48 + 16 + 64) * (128 + 16) + 4096)
 static uint8_t SLS[SL_SRC] ALIGN64, SLR[SL_REF] ALIGN64;
 
 void drv_misc_sad_loop(Run *r) {
@@ -120,6 +120,10 @@ void drv_misc_sad_loop(Run *r) {
     int              np = r->thorough ? NEL(PT) : NEL(PQ);
     long long        geom = 0;
     char             n1[32], n2[32];
+    static const char *CPN[4] = {"copy@(0,0) of ", "copy@(last,last) of ", "copy@(first column right of the area, last row) of ", "copy@(0, first row below the area) of "};
+    static const char *CPL[4] = {"= reference block at (0,0) of", "= reference block at the last search position of",
+                                 "= reference block at (search_area_width, search_area_height-1), i.e. just outside the search area, of",
+                                 "= reference block at (0, search_area_height), i.e. just below the search area, of"};
     memset(seen, 0, sizeof seen);
     kc_junk(SLS, sizeof SLS, 31);
     kc_junk(SLR, sizeof SLR, 32);
@@ -140,20 +144,23 @@ void drv_misc_sad_loop(Run *r) {
                         for (int rot = 0; rot < 1; rot++, geom++) {
                             int g = (int)(geom % 24);
                             int ss = stride4(w, g & 3), mult = 1 + ((g >> 2) & 1), ri = g / 8, roff = (int)((geom / 24) & 1);
-                            int aw = w + sw - 1, ah = (h - 1) * mult + sh;
+                            // the reference picture continues beyond the search area: 8 more columns and one more row carry the pattern too, so
+                            // that an implementation evaluating a position outside the search area finds real (possibly better matching) data
+                            int aw = w + sw - 1 + 8, ah = (h - 1) * mult + sh + 1;
                             int R = ri == 0 ? aw : ri == 1 ? aw + 1 : aw + 16;
                             uint8_t *ref = SLR + 64 + roff;
                             for (int pb = 0; pb < np; pb++) {
                                 int patb = PS[pb];
                                 if (r->stop) return;
-                                if (r->only_case < 0 || (r->case_idx <= r->only_case && r->only_case < r->case_idx + np + 2))
+                                if (r->only_case < 0 || (r->case_idx <= r->only_case && r->only_case < r->case_idx + np + 4))
                                     kc_fill_u8(ref, aw, ah, R, patb, 0, 255);
-                                // pa == np / np+1: src = the reference block at search position (0,0) / (sw-1, sh-1) of the same pattern
-                                for (int pa = 0; pa < np + 2; pa++) {
+                                // pa == np .. np+3: src = the reference block (same pattern) at search position (0,0) / (sw-1, sh-1) = last valid /
+                                // (sw, sh-1) = first position right of the search area / (0, sh) = first position below the search area
+                                for (int pa = 0; pa < np + 4; pa++) {
                                     int pata = pa < np ? PS[pa] : patb;
                                     if (r->stop) return;
                                     if (case_skip_fast(r)) continue;
-                                    int ox = pa == np + 1 ? sw - 1 : 0, oy = pa == np + 1 ? sh - 1 : 0;
+                                    int ox = pa == np + 1 ? sw - 1 : pa == np + 2 ? sw : 0, oy = (pa == np + 1 || pa == np + 2) ? sh - 1 : pa == np + 3 ? sh : 0;
                                     if (pa < np) kc_fill_u8(SLS + 64, w, h, ss, pata, 0, 255);
                                     else
                                         for (int y = 0; y < h; y++)
@@ -164,7 +171,7 @@ void drv_misc_sad_loop(Run *r) {
                                     ((sad_loop_fn)k->c)(SLS + 64, (uint32_t)ss, ref, (uint32_t)(R * mult), (uint32_t)h, (uint32_t)w, &c_best, &c_x, &c_y, (uint32_t)R, (int16_t)sw,
                                                         (int16_t)sh);
                                     VERBOSE(r, "case %lld: block %dx%d search area %dx%d src_stride=%d ref_stride=%d src_stride_raw=%d ref_offset=%d src=%s%s ref area=%s -> c best_sad=%llu x=%d y=%d",
-                                            r->case_idx - 1, w, h, sw, sh, ss, R * mult, R, roff, pa < np ? "" : (pa == np ? "copy@(0,0) of " : "copy@(last,last) of "),
+                                            r->case_idx - 1, w, h, sw, sh, ss, R * mult, R, roff, pa < np ? "" : CPN[pa - np],
                                             kc_pat_name(pata, 0, 255, n1), kc_pat_name(patb, 0, 255, n2), (unsigned long long)c_best, c_x, c_y);
                                     for (int vi = 0; vi < k->nv; vi++) {
                                         if (!var_on(r, vi)) continue;
@@ -174,7 +181,7 @@ void drv_misc_sad_loop(Run *r) {
                                                                    (int16_t)sw, (int16_t)sh);
                                         if (v_best != c_best || v_x != c_x || v_y != c_y)
                                             MISMATCH(r, vi, "block_width=%d block_height=%d search_area_width=%d search_area_height=%d src_stride=%d ref_stride=%d src_stride_raw=%d ref_offset=%d, src %s pattern '%s', reference area (%dx%d) pattern '%s': c best_sad=%llu at (x=%d,y=%d), simd best_sad=%llu at (x=%d,y=%d)",
-                                                     w, h, sw, sh, ss, R * mult, R, roff, pa < np ? "=" : (pa == np ? "= reference block at (0,0) of" : "= reference block at the last search position of"),
+                                                     w, h, sw, sh, ss, R * mult, R, roff, pa < np ? "=" : CPL[pa - np],
                                                      kc_pat_name(pata, 0, 255, n1), aw, ah, kc_pat_name(patb, 0, 255, n2), (unsigned long long)c_best, c_x, c_y,
                                                      (unsigned long long)v_best, v_x, v_y);
                                     }
